@@ -143,7 +143,7 @@ func c03Run(c *mon.Ctx) {
 	loadContainmentKnown(c)
 	openSnap(c)
 	defer closeSnap()
-	o := pairOpts{corpusVariants: c.Pick(4, 8), halfLattice: c.Thorough(), random: c.Pick(1200000, 25000000)}
+	o := pairOpts{corpusVariants: c.Pick(4, 8), halfLattice: c.Thorough(), large: c.Pick(150000, 3000000), random: c.Pick(1200000, 25000000)}
 	if os.Getenv("VERIF_SNAPSHOT") == "corpus" {
 		o = pairOpts{corpusVariants: 8, halfLattice: true, random: 0}
 	}
@@ -164,6 +164,8 @@ func c03Run(c *mon.Ctx) {
 	corpusPairs(c, o, &item, sink)
 	c.Count("corpus_done")
 	randomPairs(c, o, &item, sink)
+	largePairs(c, o, &item, sink)
+	c.Count("large_done")
 }
 
 func c03Replay(kind string, raw json.RawMessage) (bool, string) {
